@@ -29,6 +29,15 @@ therefore also runs a fixed number of cases over 1500-5000 interactions (see RUL
 same builders, same history executor, same oracles; reward and feedback functions are evaluated on every offered action of every
 interaction in every read, as in the small cases.  A violating large-N case is first re-tried at an ordinary size; the signature
 carries '+large-n' only when the failure does not survive there.
+
+Collection cases.  All cases above hold ONE environment in their Environments object.  Every shard also runs a fixed number of cases
+whose Environments holds 2-101 sibling environments (most often 11-30), made in every public way (a list of seeds, a + b + ...,
+from_custom(*envs), shuffle(n=..), shuffle(seeds), reservoir(seeds=..), logged([learners]), filter([filters]) anywhere in the chain).
+The history runs on one member; materialize() / cache() / chunk() / pickling / save() (what save() returns, from_save(path), a second
+save() to the now existing path) are applied to the whole collection and 'the environment afterwards' is the member at the same
+position.  The other members are read (and their params looked up) before the history in most cases, and always after it: each must
+read what it read before (else: what the same member of a fresh collection reads) and report the params it reported before.  A read
+or params that equal what ANOTHER member of the collection gives are reported as 'collection-member-moved'.
 """
 import os, sys, json, time, random, pickle, shutil, tempfile, warnings, itertools, gc
 from collections import Counter
@@ -44,7 +53,12 @@ RULE  = ("seeded (pipeline, history) pairs: source kind x kind-tracked filter ch
          "number of LARGE-N cases per shard: a source of 1500-5000 interactions (stored as a recipe: source kind, seed, n), a chain that holds "
          "one designated filter -- in turn every size-sensitive filter (Grounded, Cache, Chunk, Reservoir, Shuffle, Logged) with every "
          "transformation, then every other filter -- between 0-2 random filters whose size parameters are on the scale of n, and a history "
-         "[FULL] [PARTIAL] [transformation] FULL [PARTIAL|PARAMS] FULL [transformation FULL]; same oracles")
+         "[FULL] [PARTIAL] [transformation] FULL [PARTIAL|PARAMS] FULL [transformation FULL]; same oracles.  And a fixed number of COLLECTION "
+         "cases per shard: the pipeline multiplied into 2-101 sibling environments (in turn: seed list, sum of Environments, from_custom(*envs), "
+         "shuffle(n), shuffle(seeds), reservoir(seeds), filter([Params..]), logged([learners]) -- the last five in front of any filter of the chain -- "
+         "each with every transformation in turn), the history [FULL] [PARTIAL] [PARAMS] transformation FULL [PARTIAL|PARAMS] FULL "
+         "[transformation FULL] executed on one member with the transformations applied to the whole collection (SAVE: save()'s result | "
+         "from_save | a second save() to the same path), the other members read before (65%) and after the history; same oracles per member")
 PLAN  = {"quick":    {"shards": 16, "cases": 3200,  "timeout": 600,  "budget_s": 80},
          "thorough": {"shards": 16, "cases": 60000, "timeout": 3000, "budget_s": 800}}
 REQUIRED = ["oracle.full-reread", "oracle.full-reread.two-or-more-interactions", "oracle.fresh", "oracle.partial-prefix", "oracle.full-after-partial",
@@ -59,7 +73,14 @@ REQUIRED = ["oracle.full-reread", "oracle.full-reread.two-or-more-interactions",
             "oracle.large-n.after.MATERIALIZE", "oracle.large-n.after.CACHE", "oracle.large-n.after.CHUNK", "oracle.large-n.after.PICKLE",
             "oracle.large-n.after.SAVE", "reach.large-n.filter.Grounded", "reach.large-n.filter.Cache", "reach.large-n.filter.Chunk",
             "reach.large-n.filter.Reservoir", "reach.large-n.filter.Shuffle", "reach.large-n.filter.Logged",
-            "reach.large-n.feedbacks-reread-on-shared-interactions"]
+            "reach.large-n.feedbacks-reread-on-shared-interactions",
+            # collection cases (Environments with several members; 'many': more than COLL_MANY members)
+            "oracle.coll.member-reread", "oracle.coll.member-fresh", "oracle.coll.member-params", "oracle.coll.length",
+            "oracle.coll.many.after.MATERIALIZE", "oracle.coll.many.after.CACHE", "oracle.coll.many.after.CHUNK", "oracle.coll.many.after.PICKLE",
+            "oracle.coll.many.after.SAVE", "reach.coll.members.11-30", "reach.coll.members.over-30", "reach.coll.save.return",
+            "reach.coll.save.from_save", "reach.coll.save.again", "reach.coll.how.seeds", "reach.coll.how.sum", "reach.coll.how.custom-many",
+            "reach.coll.how.shuffle-n", "reach.coll.how.shuffle-seeds", "reach.coll.how.reservoir-seeds", "reach.coll.how.params-tags",
+            "reach.coll.how.logged-learners"]
 ASSUMPTIONS = [
     "seed=None (clock seeded) is never generated; filters that need optional packages (OpeRewards DM/DR, torch batches) are excluded",
     "a pipeline whose FIRST read raises the same exception type on the subject and on a fresh object is out of the domain "
@@ -79,6 +100,12 @@ ASSUMPTIONS = [
     "nested categoricals keep the same layout in every row of a column / key (coba locates categoricals by looking at the first row)",
     "large-N cases have 1500-5000 interactions and 2-4 actions: state that only overflows beyond that (a bound above ~5000 items, or above "
     "~4400-20000 reward / feedback evaluations between two reads of the same interaction) is not reached",
+    "collection cases: at most 101 members, save() with processes=1 to a path that does not exist yet (or, 'again', that holds exactly the "
+    "same collection: a file holding only some of the members is resumed, which appends the missing ones in another order by design); "
+    "the members of a collection are read one after the other, never interleaved; one Cache filter object is never put into two pipelines "
+    "(it holds the data of the pipeline it is in): on a collection Cache is always applied through Environments.cache()",
+    "the position of a member identifies it: member i of what materialize()/cache()/chunk()/pickle/save() give for a collection is 'the same "
+    "environment afterwards' as member i of the collection (Environments is a Sequence; coba's own save test zips the two)",
 ]
 
 MAX_SHRINKS_PER_SHARD = 60
@@ -833,6 +860,89 @@ def gen_big_case(rng, focus, tr):
     shape = {"ctx": st0.get("ctx"), "acts": st0.get("acts")}
     return {"source": source, "chain": chain, "view": view, "history": gen_history_big(rng, view, N, tr), "shape": shape}
 
+# =================================================================================================== generators: collection cases
+# The cases above build an Environments that holds ONE environment.  The public constructors and the fluent API routinely give
+# collections of many environments (a list of seeds, `a + b`, from_custom(*envs), shuffle(n=..), shuffle(seeds), reservoir(seeds=..),
+# logged([learners]), filter([filters])), and materialize() / cache() / chunk() / pickling / save() are applied to the COLLECTION: the
+# environment 'after save()' is the member at the same position of what save() returns.  A collection case is an ordinary case
+# (source, chain, history) plus spec["coll"] = {"how", "m", "at", "pos", "args", "presweep"}: the pipeline is multiplied into m
+# sibling environments (at the source for seeds / sum / custom-many, by a multiplying API call applied in front of chain[pos]
+# otherwise), the history is executed on member `at` with every transformation applied to the whole collection, and the other
+# members are read before (presweep) and after the history.
+COLL_SIZES       = [2, 3, 5, 9, 10, 11, 11, 12, 12, 13, 20, 21, 25, 30, 101]
+COLL_SOURCE_HOWS = ["seeds", "sum", "custom-many"]
+COLL_FILTER_HOWS = ["shuffle-n", "shuffle-seeds", "reservoir-seeds", "params-tags", "logged-learners"]
+COLL_TRANSFORMS  = ["MATERIALIZE", "CACHE", "CHUNK", "PICKLE", "SAVE"]
+# one round of collection cases: every way of making a collection with every transformation
+COLL_ROUND       = [(h, t) for h in COLL_SOURCE_HOWS + COLL_FILTER_HOWS for t in COLL_TRANSFORMS]
+COLL_PER_SHARD   = {"quick": 32, "thorough": 640}
+COLL_MANY        = 10          # 'many members': more than this
+
+def gen_history_coll(rng, n, tr):
+    """[FULL] [PARTIAL] [PARAMS] transformation FULL [PARTIAL | PARAMS] FULL [transformation FULL] [PARAMS].  SAVE carries how the saved
+    collection is obtained: what save() returns, Environments.from_save(path), or what a second save() to the same path returns"""
+    def full():
+        return ["FULL"] + ([rng.choice([0, 1, max(n-1, 0), n])] if rng.random() < .2 else [])
+    def partial():
+        k = rng.choice([0, 1, 2, 3, 5, 25, 26, max(n-1, 0), n, n+3])
+        op = ["PARTIAL", k, rng.choice(["close", "drop"])]
+        if rng.random() < .2: op.append(min(k, rng.choice([0, 1, k])))
+        return op
+    def trop(t):
+        return [t, rng.choice(["return", "return", "from_save", "again"])] if t == "SAVE" else [t]
+    ops = []
+    if rng.random() < .5: ops.append(full())
+    if rng.random() < .3: ops.append(partial())
+    if rng.random() < .3: ops.append(["PARAMS"])
+    ops.append(trop(tr)); ops.append(full())
+    r = rng.random()
+    if r < .3: ops.append(partial())
+    elif r < .5: ops.append(["PARAMS"])
+    ops.append(["FULL"])
+    if rng.random() < .35:
+        ops.append(trop(rng.choice(COLL_TRANSFORMS))); ops.append(["FULL"])
+    if rng.random() < .5: ops.append(["PARAMS"])
+    return ops
+
+def gen_coll_case(rng, how, tr):
+    """a collection case: `how` the collection is made (falls back to params-tags when it is not applicable), `tr` the first
+    transformation of the history"""
+    M = rng.choice(COLL_SIZES)
+    for attempt in range(12):
+        if attempt == 11 and how == "logged-learners": how = "params-tags"
+        if how == "seeds":         source, st = gen_src_syn(rng)
+        elif how == "sum":         source, st = rng.choice([gen_src_syn, gen_src_lambda])(rng)
+        elif how == "custom-many": source, st = gen_src_custom(rng)
+        else:                      source, st = gen_source(rng)
+        st = dict(st); st0 = dict(st); n = st.get("n", 5)
+        args = {}; pos = None
+        L = rng.choice([0, 1, 1, 2, 2, 3, 4]); want = rng.randint(0, L)
+        chain = []
+        for i in range(L + 1):
+            # the multiplying call goes in front of the first filter at or after `want` where interactions are not batched
+            if how in COLL_FILTER_HOWS and pos is None and i >= want and not st["batched"]:
+                if how == "logged-learners":
+                    f = gen_filter(rng, st, force="Logged")
+                    if f is not None:
+                        pos = len(chain)
+                        args = {"learners": [rng.choice(["random", "epsilon", "ucb"]) for _ in range(M)], "seed": f["a"]["seed"]}
+                else: pos = len(chain)
+            if i < L:
+                f = gen_filter(rng, st)
+                if f: chain.append(f)
+        if how in COLL_FILTER_HOWS and pos is None:
+            if how == "logged-learners": continue
+            pos = 0                                            # sources are never batched
+        break
+    if how in ("seeds", "sum"):   args = {"seeds": rng.sample(range(0, 200), M)}
+    elif how == "shuffle-seeds":  args = {"seeds": rng.sample(range(0, 200), M), "kw": rng.random() < .5}
+    elif how == "reservoir-seeds":
+        args = {"n": rng.choice([None, 3, 5, 12, 30, n]), "seeds": rng.sample(range(0, 200), M), "strict": False}
+    at = min(M - 1, rng.choice([0, 1, 2, 3, 10, M - 1, M - 1, rng.randrange(M)]))
+    coll = {"how": how, "m": M, "at": at, "pos": pos, "args": args, "presweep": rng.random() < .65}
+    shape = {"ctx": st0.get("ctx"), "acts": st0.get("acts")}
+    return {"source": source, "chain": chain, "view": "final", "history": gen_history_coll(rng, n, tr), "shape": shape, "coll": coll}
+
 # =================================================================================================== builders
 class ListEnv:
     """a caller-written environment over a caller-owned interaction list (re-iterable)"""
@@ -968,7 +1078,7 @@ def apply_api(E, f, owned, tag):
     if n == "Slice":     return E.slice(a["start"], a["stop"], a["step"])
     if n == "Shuffle":   return E.shuffle(a["seed"])
     if n == "Riffle":    return E.riffle(a["spacing"], a["seed"])
-    if n == "Cache" and "n_slice" not in a: return E.cache()
+    if n == "Cache" and ("n_slice" not in a or len(E) > 1): return E.cache()     # one Cache object per pipeline (it holds the data)
     if n == "Flatten":   return E.flatten()
     if n == "Binary":    return E.binary()
     if n == "Cycle":     return E.cycle(a["after"])
@@ -984,11 +1094,63 @@ def apply_api(E, f, owned, tag):
         return E.logged(l, a["seed"])
     return E.filter(make_filter(f, owned, tag))
 
+def build_collection(spec, tmp, owned):
+    """-> Environments with spec['coll']['m'] members (view 'final': the fluent API on the whole collection)"""
+    from coba.environments import Environments
+    import coba.environments.filters as F
+    c = spec["coll"]; how, M, a = c["how"], c["m"], c.get("args") or {}
+    s = resolve_source(spec["source"])
+    if how == "seeds":
+        seeds = list(a["seeds"]); owned["src.seeds"] = seeds
+        E = build_source(dict(s, seed=seeds), tmp, owned)
+    elif how == "sum":
+        E = None
+        for j, sd in enumerate(a["seeds"]):
+            Ej = build_source(dict(s, seed=sd), tmp, owned, f"src{j}")
+            E = Ej if E is None else E + Ej
+    elif how == "custom-many":
+        # M caller-written environments over rotations of one caller-owned list of interactions (the interaction objects are shared)
+        inter = dec(s["interactions"]); owned["src.interactions"] = inter
+        envs = []
+        for j in range(M):
+            r = j % len(inter) if inter else 0
+            lst = inter[r:] + inter[:r]; owned[f"src{j}.list"] = lst
+            env = ListEnv(lst, s.get("as_list", False)); env._p = {"env_type": "ListEnv", "member": j}
+            envs.append(env)
+        E = Environments.from_custom(*envs) if M % 2 else Environments.from_custom(envs)
+    else:
+        E = build_source(s, tmp, owned)
+    def multiply(E):
+        if how == "shuffle-n": return E.shuffle(n=M)
+        if how == "shuffle-seeds":
+            seeds = list(a["seeds"]); owned["mult.seeds"] = seeds
+            return E.shuffle(seeds=seeds) if a.get("kw") else E.shuffle(seeds)
+        if how == "reservoir-seeds":
+            seeds = list(a["seeds"]); owned["mult.seeds"] = seeds
+            return E.reservoir(a["n"], seeds=seeds, strict=a["strict"])
+        if how == "params-tags":
+            ps = [{"member": j} for j in range(M)]; owned["mult.params"] = ps
+            return E.filter([F.Params(p) for p in ps])
+        if how == "logged-learners":
+            ls = [make_learner(nm) for nm in a["learners"]]; owned["mult.learners"] = ls
+            return E.logged(ls, a["seed"])
+        raise ValueError(how)
+    for i, f in enumerate(spec["chain"]):
+        if how in COLL_FILTER_HOWS and i == c["pos"]: E = multiply(E)
+        E = apply_api(E, f, owned, f"f{i}")
+    if how in COLL_FILTER_HOWS and c["pos"] >= len(spec["chain"]): E = multiply(E)
+    if len(E) != M: raise ValueError(f"collection of {len(E)} members, expected {M}")
+    return E
+
 class Built: pass
 def build(spec, tmp):
     from coba.environments import Environments
     from coba.pipes import Pipes
-    b = Built(); b.owned = {}
+    b = Built(); b.owned = {}; b.coll = None
+    if spec.get("coll"):
+        b.coll = build_collection(spec, tmp, b.owned)
+        b.env = b.coll[spec["coll"]["at"]]
+        return b
     E = build_source(spec["source"], tmp, b.owned)
     if spec["view"] == "raw":
         filters = [make_filter(f, b.owned, f"f{i}") for i, f in enumerate(spec["chain"])]
@@ -1031,24 +1193,33 @@ def _subst(v, a, b):
     if isinstance(v, tuple): return tuple(_subst(x, a, b) for x in v)
     return v
 
-def _transform(env, op, view, tmp, counter):
-    """-> new env, or None when the transformation is not applicable (counted by the caller)"""
+def _transform(env, op, view, tmp, counter, coll=None, via=None):
+    """-> new env, or None when the transformation is not applicable (counted by the caller).
+    coll: the transformation is applied to this whole Environments collection and the new collection is returned.
+    via (SAVE): 'return' what save() returns | 'from_save' Environments.from_save(path) after save() | 'again' what a second save()
+    of the same collection to the same (now existing, matching) path returns"""
     from coba.environments import Environments, Cache, Chunk
     from coba.pipes import Pipes
     from coba.exceptions import CobaException
+    one = (lambda E: E[0]) if coll is None else (lambda E: E)
     if op == "CACHE":
-        return Pipes.join(env, Cache(25)) if view == "raw" else Environments(env).cache()[0]
+        return Pipes.join(env, Cache(25)) if view == "raw" else one((Environments(env) if coll is None else coll).cache())
     if op == "CHUNK":
-        return Pipes.join(env, Chunk(), Cache(25)) if view == "raw" else Environments(env).chunk()[0]
+        return Pipes.join(env, Chunk(), Cache(25)) if view == "raw" else one((Environments(env) if coll is None else coll).chunk())
     if op == "PICKLE":
-        try: data = pickle.dumps(env)
+        try: data = pickle.dumps(env if coll is None else coll)
         except Exception as e: raise Invalid(f"pickle.dumps:{type(e).__name__}")
         return pickle.loads(data)
     if op == "MATERIALIZE":
-        return Environments(env).materialize()[0]
+        return one((Environments(env) if coll is None else coll).materialize())
     if op == "SAVE":
         path = os.path.join(tmp, f"save{next(counter)}.zip")
-        try: return Environments(env).save(path)[0]
+        E = Environments(env) if coll is None else coll
+        try:
+            out = E.save(path)
+            if via == "from_save": out = Environments.from_save(path)
+            elif via == "again":   out = E.save(path)
+            return one(out)
         except CobaException as e: raise Invalid(f"save:CobaException")
     raise ValueError(op)
 
@@ -1078,6 +1249,29 @@ def run_history(spec, ctx=None):
             # feedbacks that evaluate to values (not to an exception) on the offered actions of the first interaction
             fb = [v for it in ref[:1] if isinstance(it, tuple) for kv in it if isinstance(kv, tuple) and len(kv) == 2 and kv[0] == "feedbacks" for v in [kv[1]]]
             ctx.extra["_fb_values"] = bool(fb) and fb[0][0] == "R" and bool(fb[0][1]) and not any(isinstance(x, tuple) and x[:1] == ("raise",) for x in fb[0][1])
+        # ---------------- collection cases: every other member of the fresh collection is read once, after the reference read
+        cspec = spec.get("coll"); M = cspec["m"] if cspec else 1; at = cspec["at"] if cspec else 0
+        others = {}; others_params = {}          # member -> what it reads / reports (canonical); None: its read / look-up raised
+        def sweep(E, tmpdir):
+            reads, params = {}, {}
+            for j in range(M):
+                if j == at: continue
+                try: reads[j] = _read_full(E[j])
+                except Exception as e: reads[j] = _Raised(e); params[j] = None; continue
+                p, e = _lookup(E[j])
+                params[j] = None if e is not None else _subst(p, tmpdir, "$TMP")
+            return reads, params
+        if cspec:
+            others, others_params = sweep(fresh.coll, os.path.join(tmp, "fresh"))
+            bad = [r for r in others.values() if isinstance(r, _Raised)]
+            if bad:
+                # a sibling that not even a fresh collection can read (e.g. its own learner cannot handle the actions, its own sample
+                # starts with another kind of row): the collection is not type-compatible, and transformations of it read every member
+                return "invalid", [(f"sibling-first-read-raises.{bad[0].t}", f"{len(bad)} of {M} members cannot be read")]
+            fsnap1 = snapshot_owned(fresh.owned)
+        def moved_to(got, table):
+            """the other member whose reference equals `got` (None: none)"""
+            return next((j for j, r in table.items() if r is not None and not isinstance(r, _Raised) and r == got), None)
         note("oracle.snapshot", len(fsnap0))
         for name in fsnap0:
             if fsnap0[name] != fsnap1.get(name):
@@ -1088,11 +1282,25 @@ def run_history(spec, ctx=None):
         except Exception as e: return "invalid", [("build", f"{type(e).__name__}: {e}")]
         snap0 = snapshot_owned(sub.owned)
         env, view = sub.env, spec["view"]
+        coll = sub.coll; pre_reads = pre_params = None
+        if cspec and cspec.get("presweep"):
+            # the other members are read (and their params looked up) before anything is applied to the collection
+            pre_reads, pre_params = sweep(coll, os.path.join(tmp, "subj"))
+            for j in pre_reads:
+                note("oracle.coll.member-fresh")
+                if isinstance(others.get(j), _Raised): continue             # differential only: the fresh member cannot be read either
+                if pre_reads[j] != others[j]:
+                    if isinstance(pre_reads[j], _Raised): viol.append((f"sweep:raise:{pre_reads[j].t}", f"member {j} of a fresh collection reads fine; read after its siblings {sorted(k for k in pre_reads if k < j)} it raises {pre_reads[j].t}"))
+                    else:
+                        d = diff_reads(pre_reads[j], others[j])
+                        viol.append((f"sweep:{d[0]}", f"member {j} read after its siblings {sorted(k for k in pre_reads if k < j)} differs from the same member of a fresh collection: {d[1]}"))
+                    return "ok", viol
+            others, others_params = pre_reads, pre_params
         counter = itertools.count()
         first_full = None; first_params = None; since = []      # ops since the last FULL
         any_full = False
         has_read = False           # a complete read, or an abandoned read that pulled at least one interaction, has happened
-        transformed = False; n_reads = 0; early_lookup = False
+        transformed = False; n_reads = 0; early_lookup = False; applied = []
         def judge(p, exc, after, inside=False):
             """a params look-up made once the object has been read; -> True when a violation was recorded"""
             nonlocal first_params
@@ -1114,8 +1322,19 @@ def run_history(spec, ctx=None):
                     if q != fresh_params:
                         viol.append(("params:differ-from-fresh", f"{where} after [{after}] differ from what an identical object reports after one complete read in {keys_of(fresh_params, q)}")); return True
             elif p != first_params:
+                j = moved_to(_subst(p, os.path.join(tmp, "subj"), "$TMP"), others_params) if cspec else None
+                if j is not None:
+                    viol.append(("params:member-moved", f"{where} of member {at} after [{after}] are the params of member {j} of the collection")); return True
                 viol.append(("params:differ", f"{where} after [{after}] differ from the first look-up in {keys_of(first_params, p)}")); return True
             return False
+        def diff_member(got, want, j):
+            """like diff_reads; in a collection a read that equals what ANOTHER member reads is reported as such"""
+            d = diff_reads(got, want)
+            if d and cspec:
+                k = moved_to(got, {i: r for i, r in others.items() if i != j})
+                if k is None and j != at and got == ref: k = at
+                if k is not None: return ("member-moved", f"member {j} of the collection yields the interactions of member {k}")
+            return d
         for n_op, op in enumerate(spec["history"]):
             kind = op[0]
             if kind == "FULL":
@@ -1132,7 +1351,7 @@ def run_history(spec, ctx=None):
                     after = ">".join(since) or "nothing"
                     if exc is not None:
                         viol.append((f"first-read:raise:{type(exc).__name__}", f"a fresh object reads fine, but after [{after}] the read raises {type(exc).__name__}: {exc}")); break
-                    d = diff_reads(got, ref)
+                    d = diff_member(got, ref, at)
                     if d:
                         viol.append((f"first-read:{d[0]}", f"after [{after}] the first full read differs from a fresh object's read: {d[1]}")); break
                     first_full = got; any_full = True
@@ -1151,7 +1370,7 @@ def run_history(spec, ctx=None):
                     after = ">".join(since) or "FULL"
                     if exc is not None:
                         viol.append((f"reread:raise:{type(exc).__name__}", f"full read after [{after}] raises {type(exc).__name__}: {exc}")); break
-                    d = diff_reads(got, first_full)
+                    d = diff_member(got, first_full, at)
                     if d:
                         viol.append((f"reread:{d[0]}", f"full read after [{after}] differs from the first full read: {d[1]}")); break
                 has_read = True
@@ -1182,12 +1401,47 @@ def run_history(spec, ctx=None):
                 since.append("PARAMS")
             else:
                 try:
-                    new = _transform(env, kind, view, os.path.join(tmp, "subj"), counter)
+                    new = _transform(env, kind, view, os.path.join(tmp, "subj"), counter, coll, op[1] if len(op) > 1 else None)
                 except Invalid as e:
                     note(f"skip.transform.{kind}.{e}"); continue
                 except Exception as e:
                     viol.append((f"transform:{kind}:raise:{type(e).__name__}", f"{kind} after [{'>'.join(since) or 'nothing'}] raises {type(e).__name__}: {e}")); break
+                if coll is not None:
+                    note("oracle.coll.length")
+                    if len(new) != M:
+                        viol.append(("collection:length", f"{kind} of a collection of {M} environments gives a collection of {len(new)}")); break
+                    coll = new; new = coll[at]; applied.append(kind)
                 env = new; since.append(kind); transformed = True
+        # ---------------- collection cases: the other members after the history
+        if cspec and not viol:
+            many = ".many" if M > COLL_MANY else ""
+            for j in range(M):
+                if j == at or isinstance(others.get(j), _Raised): continue
+                what = "the read made before" if pre_reads is not None else "the same member of a fresh collection"
+                after = ">".join(applied) or "nothing"
+                note("oracle.coll.member-reread" if pre_reads is not None else "oracle.coll.member-fresh")
+                for t in set(applied): note(f"oracle.coll{many}.after.{t}")
+                try: got = _read_full(coll[j])
+                except Exception as e:
+                    viol.append((f"sweep:raise:{type(e).__name__}", f"member {j} of the collection after [{after}] raises {type(e).__name__}: {e}")); break
+                d = diff_member(got, others[j], j)
+                if d:
+                    viol.append((f"sweep:{d[0]}", f"member {j} of the collection read after [{after}] differs from {what}: {d[1]}")); break
+                if pre_params is not None and pre_params.get(j) is not None:
+                    # the member had been read and its params looked up before the transformations
+                    note("oracle.coll.member-params")
+                    p, e = _lookup(coll[j])
+                    if e is not None:
+                        viol.append((f"params:raise:{type(e).__name__}", f"params of member {j} of the collection after [{after}] raise {type(e).__name__}: {e}")); break
+                    p = _subst(p, os.path.join(tmp, "subj"), "$TMP")
+                    if p != pre_params[j]:
+                        table = {i: r for i, r in pre_params.items() if i != j}
+                        if first_params is not None: table[at] = _subst(first_params, os.path.join(tmp, "subj"), "$TMP")
+                        elif fresh_params is not None: table[at] = fresh_params
+                        k = moved_to(p, table)
+                        if k is not None: viol.append(("params:member-moved", f"params of member {j} of the collection after [{after}] are the params of member {k}"))
+                        else: viol.append(("params:differ", f"params of member {j} of the collection after [{after}] differ from the look-up made before"))
+                        break
         # ---------------- caller-owned data
         snap1 = snapshot_owned(sub.owned)
         note("oracle.snapshot", len(snap0))
@@ -1209,7 +1463,8 @@ TRANSFORMS = ("MATERIALIZE", "CACHE", "CHUNK", "PICKLE", "SAVE")
 def kind_of(mode):
     """coarse failure kind: the oracle stage (first read / partial read / re-read) is not part of the mechanism"""
     stage, _, rest = mode.partition(":")
-    if stage in ("first-read", "partial", "reread"):
+    if rest == "member-moved": return "collection-member-moved"     # a member of a collection reads / reports what ANOTHER member does
+    if stage in ("first-read", "partial", "reread", "sweep"):       # sweep: the other members of a collection
         if rest.startswith("raise:"): return "read-" + rest
         if rest in ("lost-all", "lost-tail", "length"): return "read-lost-items" if rest != "length" else "read-wrong-length"
         return "read-differs"                      # another order or other values
@@ -1228,6 +1483,45 @@ def shrink(spec, kind, allow_s=None):
         return status == "ok" and any(kind_of(m) == kind for m, _ in v)
     cur = json.loads(json.dumps(spec))
     deadline = None
+    def without_filter(c, i):
+        """c without chain[i]; the position of a collection's multiplying call moves along"""
+        cand = dict(c, chain=c["chain"][:i] + c["chain"][i+1:])
+        if c.get("coll") and c["coll"].get("pos") is not None and i < c["coll"]["pos"]: cand["coll"] = dict(c["coll"], pos=c["coll"]["pos"] - 1)
+        return cand
+    def minimise_collection(final):
+        """the plainest way of making a collection (one pipeline under M Params filters; the siblings are told apart by their params,
+        so they are read before the history), the plain form of SAVE, the smallest collection (sizes up to COLL_MANY first, then just
+        beyond, then half); at the end: no reads of the siblings before the history, and -- when no filter is left -- the plainest source"""
+        nonlocal cur
+        c = cur["coll"]
+        if c["how"] != "params-tags":
+            for pre in ([True] if c.get("presweep") else [False, True]):
+                cand = dict(cur, coll=dict(c, how="params-tags", pos=0, args={}, presweep=pre))
+                if still(cand): cur = cand; c = cur["coll"]; break
+        if any(o[0] == "SAVE" and len(o) > 1 for o in cur["history"]):
+            cand = dict(cur, history=[["SAVE"] if o[0] == "SAVE" else o for o in cur["history"]])
+            if still(cand): cur = cand
+        def resized(m):
+            a = dict(c.get("args") or {})
+            if "seeds" in a: a["seeds"] = a["seeds"][:m]
+            if "learners" in a: a["learners"] = a["learners"][:m]
+            return [dict(cur, coll=dict(c, m=m, at=at, args=a)) for at in sorted({0, min(c["at"], m-1), m-1})]
+        for m in [2, 3, COLL_MANY, COLL_MANY + 1, COLL_MANY + 2, c["m"] // 2]:
+            if m >= c["m"] or m < 2: continue
+            hit = next((cand for cand in resized(m) if still(cand)), None)
+            if hit is not None: cur = hit; c = cur["coll"]; break
+        if final:
+            if c.get("presweep"):
+                cand = dict(cur, coll=dict(c, presweep=False))
+                if still(cand): cur = cand; c = cur["coll"]
+            if not cur["chain"] and c["how"] not in ("custom-many",):
+                cand = dict(cur, source=dict(PLAIN_SOURCE))
+                if still(cand): cur = cand
+    if cur.get("coll"):
+        # is the collection part of the mechanism at all?  (one environment; SAVE in its plain form)
+        cand = {k: v for k, v in cur.items() if k != "coll"}
+        if still(cand): cur = cand
+    if cur.get("coll"): minimise_collection(final=False)
     if _is_big(cur):
         N = cur["source"]["n"]
         for m in (40, N//8, N//4, N//2):
@@ -1268,16 +1562,20 @@ def shrink(spec, kind, allow_s=None):
                 if still(cand): cur = cand; changed = True; break
         if changed: continue
         for i in range(len(cur["chain"])):
-            cand = dict(cur, chain=cur["chain"][:i] + cur["chain"][i+1:])
+            cand = without_filter(cur, i)
             if still(cand): cur = cand; changed = True; break
         if changed: continue
-        if cur["view"] == "final" and not any(o[0] in ("MATERIALIZE", "SAVE") for o in cur["history"]):
+        if cur["view"] == "final" and not cur.get("coll") and not any(o[0] in ("MATERIALIZE", "SAVE") for o in cur["history"]):
             cand = dict(cur, view="raw")
             if still(cand): cur = cand; changed = True
+    if cur.get("coll"):
+        minimise_collection(final=True)
     return cur
 
+PLAIN_SOURCE = {"kind": "syn", "which": "bandit", "n": 6, "n_actions": 3, "ncf": 0, "naf": 0, "seed": 1, "plain": True}
 def _src_label(s):
     s = resolve_source(s)
+    if s.get("plain"): return "any"          # a shrunk witness: the failure survived the replacement of the source by the plainest one
     return s["kind"] if s["kind"] != "saved" else f"saved({s['inner']['kind']})"
 
 def signature(spec, kind):
@@ -1295,6 +1593,11 @@ def signature(spec, kind):
     peeks = [op_peek(o) for o in spec["history"] if op_peek(o) is not None]
     if peeks: after += "+params-before-first-pull" if 0 in peeks else "+params-during-read"
     if _is_big(spec): after += "+large-n"          # the failure did not survive at an ordinary size (or was never tried there)
+    c = spec.get("coll")
+    if c:
+        # the failure did not survive on a single environment (or was never tried there); '>ten': nor on the small collections tried;
+        # the way the collection is made is named when the failure did not survive with the plainest one (or was never tried there)
+        after += "+collection" + (">ten" if c["m"] > COLL_MANY else "") + (f"[{c['how']}]" if c["how"] != "params-tags" else "")
     return f"{kind}/{where}/{after}"
 
 def _rereads_shared_objects(names, hist):
@@ -1323,7 +1626,15 @@ def check_case(spec, ctx=None, do_shrink=True):
             ctx.case(("invalid",), nontrivial=False)
         else:
             nontrivial = (bool(names) or any(h != "FULL" and h != "PARAMS" for h in hist)) and ctx.extra.get("_n_ref", 0) >= 2
-            ctx.case((_src_label(spec["source"]), names, hist, spec["view"]), nontrivial=nontrivial)
+            c = spec.get("coll")
+            if c:
+                size = "2-10" if c["m"] <= COLL_MANY else "11-30" if c["m"] <= 30 else "over-30"
+                ctx.case((_src_label(spec["source"]), names, hist, spec["view"], "coll", c["how"], c.get("pos"), size, bool(c.get("presweep"))), nontrivial=nontrivial)
+                ctx.count("reach.coll"); ctx.count(f"reach.coll.how.{c['how']}"); ctx.count(f"reach.coll.members.{size}")
+                for o in spec["history"]:
+                    if o[0] == "SAVE": ctx.count(f"reach.coll.save.{o[1] if len(o) > 1 else 'return'}")
+            else:
+                ctx.case((_src_label(spec["source"]), names, hist, spec["view"]), nontrivial=nontrivial)
             ctx.count(f"reach.source.{resolve_source(spec['source'])['kind']}")
             for nme in set(names): ctx.count(f"reach.filter.{nme}")
             if "Shuffle" in names and ("Logged" in names[:names.index("Shuffle")] or spec["source"]["kind"] in ("result",) or
@@ -1372,8 +1683,20 @@ def run_shard(ctx):
     k_big = BIG_PER_SHARD.get(ctx.tier, 5)
     every = max(1, ctx.n // k_big)
     brng = random.Random(f"{ctx.seed}/{ctx.prop}/{ctx.tier}/{ctx.shard}/large-n")
-    i = j = 0
+    # collection cases: likewise a fixed number per shard from their own stream; collection case g of the run takes entry g of COLL_ROUND
+    k_coll = COLL_PER_SHARD.get(ctx.tier, 40)
+    every_c = max(1, ctx.n // k_coll)
+    crng = random.Random(f"{ctx.seed}/{ctx.prop}/{ctx.tier}/{ctx.shard}/collection")
+    i = j = c = 0
     while i < ctx.n and ctx.time_left() > 0:
+        if c < k_coll and i == c * every_c + every_c // 2:
+            how, tr = COLL_ROUND[(c * ctx.nshards + ctx.shard) % len(COLL_ROUND)]
+            spec = gen_coll_case(crng, how, tr)
+            for sig, what, witness in check_case(spec, ctx):
+                ctx.violation(sig, what, witness)
+            if c < 1 and ctx.shard < 2: ctx.sample({"source": _src_label(spec["source"]), "chain": [f["f"] for f in spec["chain"]], "history": spec["history"], "view": spec["view"], "coll": {k: v for k, v in spec["coll"].items() if k != "args"}})
+            c += 1
+            continue
         if j < k_big and i == j * every:
             focus, tr = BIG_ROUND[(j * ctx.nshards + ctx.shard) % len(BIG_ROUND)]
             spec = gen_big_case(brng, focus, tr)
@@ -1387,10 +1710,11 @@ def run_shard(ctx):
             ctx.violation(sig, what, witness)
         if i < 1: ctx.sample({"source": _src_label(spec["source"]), "chain": [f["f"] for f in spec["chain"]], "history": spec["history"], "view": spec["view"]})
         i += 1
-    ctx.count("histories", i); ctx.count("histories.large-n", j)
+    ctx.count("histories", i); ctx.count("histories.large-n", j); ctx.count("histories.collection", c)
     ctx.extra.pop("_shrinks", None); ctx.extra.pop("_n_ref", None); ctx.extra.pop("_fb_values", None)
     if i < ctx.n: ctx.extra["histories_skipped_for_time"] = ctx.n - i
     if j < k_big: ctx.extra["large_n_histories_skipped_for_time"] = k_big - j
+    if c < k_coll: ctx.extra["collection_histories_skipped_for_time"] = k_coll - c
 
 def replay(witness):
     return [(sig, what) for sig, what, _ in check_case(witness, None, do_shrink=False)]
